@@ -1,2 +1,27 @@
 class Undecided(Exception):
     pass
+
+
+import os, signal, subprocess
+
+
+def run_group(cmd, timeout, **kw):
+    """subprocess.run(capture_output, text) in its OWN process group; on timeout the whole group is killed (verus leaves its z3 children and
+    cargo kani its cbmc children running otherwise: they then burn cores for hours).  Raises subprocess.TimeoutExpired like subprocess.run."""
+    pre = kw.pop('preexec_fn', None)
+
+    def _pre():
+        os.setsid()
+        if pre:
+            pre()
+    p = subprocess.Popen(cmd, stdout=subprocess.PIPE, stderr=subprocess.PIPE, text=True, preexec_fn=_pre, **kw)
+    try:
+        out, err = p.communicate(timeout=timeout)
+    except subprocess.TimeoutExpired:
+        try:
+            os.killpg(p.pid, signal.SIGKILL)
+        except ProcessLookupError:
+            pass
+        p.communicate()
+        raise
+    return subprocess.CompletedProcess(cmd, p.returncode, out, err)
